@@ -51,6 +51,18 @@ instance : Wire (List Char) where
     | .atom s => if s.startsWith "s:" then some (s.toList.drop 2) else none
     | _ => none
 
+instance {α : Type} [Wire α] : Wire (Option α) where
+  toSx
+    | none => .atom "none"
+    | some v => Wire.toSx v
+  ofSx
+    | .atom "none" => some none
+    | x => (Wire.ofSx x).map some
+
+def errToSx {α : Type} [Wire α] : Except Err α → Sx
+  | .ok v => Wire.toSx v
+  | .error e => .list ([.atom "err", .atom e.cls] ++ e.args.map Wire.toSx)
+
 def exceptToSx {α : Type} [Wire α] : Except String α → Sx
   | .ok v => Wire.toSx v
   | .error e => .list [.atom "err", .atom e]
